@@ -196,3 +196,19 @@ OBLIGATIONS['C19'] = [
        desc='C_FindObjectsInit + C_FindObjects over two symbolic objects and a symbolic template: the captured handle set equals the reference matcher (sound and complete), private objects invisible unless the user is logged in (no handle issued), batches return each handle exactly once and never write beyond ulMaxObjectCount, a failed Init leaves no operation',
        bounds='1 object, template <= 1 entry over CKA_TOKEN/CLASS/LABEL/ID/PRIVATE/unknown with lengths 0..8, byte values <= 2 bytes, batch size 0..2', timeout=3000, tiers=('thorough',))]
 META['C19'] = dict(outside='populations of more than 2 objects / templates of more than 2 entries; candidate collection inside OSToken / SessionObjectStore (the two sources are cut: they deliver the objects of this token / slot)', assumptions=['tagging model of Token::decrypt'])
+
+# ----------------------------------------------------------------------------- C09
+OBLIGATIONS['C09'] = [
+    Ob('savetemplate_tx_%s' % name, 'C09/savetemplate_unit.cpp', ATTR_REAL + ['P11Objects.cpp'], defines={'P11MAP_CAP': 4, 'BS_CAP': 6, 'MODEL_OUT_MAX': 4, 'TCNT': cnt, 'T0': t0, 'T1': t1}, unwind=5, stubs=TAG_STUBS, caps='C02/caps.h',
+       unwind_rules=[(r'^harness', 20), (r'ByteString|ir_mem|memcmp|model_fill|havoc|token_decrypt|token_encrypt', 8)],
+       desc='P11Object::saveTemplate (real) with two real attributes, template types (%s): every error exit - unknown type, read-only, wrong size, gate - aborts the transaction (also when an earlier template entry was already applied), success commits exactly once' % name,
+       bounds='template of %d entries with the stated types; lengths <= 4, values, NULL pointers and operation kind symbolic' % cnt)
+    for (name, cnt, t0, t1) in (('label', 1, 'CKA_LABEL', 0), ('unknown', 1, '0x80001234UL', 0), ('label_unknown', 2, 'CKA_LABEL', '0x80001234UL'), ('label_sensitive', 2, 'CKA_LABEL', 'CKA_SENSITIVE'), ('sensitive_label', 2, 'CKA_SENSITIVE', 'CKA_LABEL'))
+] + [
+    Ob('sessobj_prefix', 'C09/sessobj_prefix.cpp', ATTR_REAL + ['P11Objects.cpp', 'object_store/SessionObject.cpp'], defines={'P11MAP_CAP': 4, 'BS_CAP': 6, 'MODEL_OUT_MAX': 4, 'VSTL_CAP': 3}, unwind=5, stubs=TAG_STUBS, caps='C02/caps.h',
+       unwind_rules=[(r'^harness', 20), (r'ByteString|ir_mem|memcmp|model_fill|havoc|token_decrypt|token_encrypt', 8)],
+       desc='rejected template (CKA_LABEL, unknown type) on a real SessionObject through the real saveTemplate: the label must keep its old value', bounds='one session object with at most the label attribute, 1-byte values'),
+    Ob('create_object', 'C09/create_entry.cpp', ENTRY_REAL_NOP11, defines={}, unwind=18, stubs=STORE_STUBS, caps='common/entry_caps.h', unwind_rules=[(r'ir_memcpy', 100)],
+       desc='C_CreateObject: a failed call leaves no handle and destroys the half-built object; private objects only for the logged-in user, token objects only through RW sessions; imported keys get LOCAL/ALWAYS_SENSITIVE/NEVER_EXTRACTABLE false',
+       bounds='template of 1..3 entries (CKA_CLASS in {DATA, SECRET_KEY/AES}); creation / init / saveTemplate are sinks with symbolic results')]
+META['C09'] = dict(outside='SQLite backend; multi-object effects of key-pair generation; the policy engine behind saveTemplate (C02/C08)', assumptions=[])
